@@ -48,7 +48,15 @@ def _make_inputs_factory(c, info, ctx):
             if isinstance(env[kwarg], str):
                 env[kwarg] = make_value(ex, env[kwarg], kwarg, {**senv, **env})
             elif isinstance(env[kwarg], dict):
-                env[kwarg] = {k: (make_value(ex, v, k, {**senv, **env}) if isinstance(v, str) else v) for k, v in env[kwarg].items()}
+                kw = {}
+                for k, v in env[kwarg].items():
+                    if isinstance(v, str) and v.startswith("absent_or(") and v.endswith(")"):
+                        # the keyword may be omitted by the caller (one path) or passed (other paths)
+                        if ex.nondet(2) == 0:
+                            continue
+                        v = v[len("absent_or("):-1]
+                    kw[k] = make_value(ex, v, k, {**senv, **env}) if isinstance(v, str) else v
+                env[kwarg] = kw
         if vararg:
             env[vararg] = ()
         for k, v in ctx.sizes.items():
